@@ -142,6 +142,13 @@ impl<L: Language> SerializableRuleConfig<L> {
       if val.core.fix.is_none() {
         return Err(RuleConfigError::NoFixInRewriter(val.id.clone()));
       }
+      if reg.get_rewriters().contains_key(&val.id) {
+        let dup = crate::rule::referent_rule::ReferentRuleError::DuplicateRule(val.id.clone());
+        return Err(RuleConfigError::Rewriter(
+          RuleCoreError::Utils(dup.into()),
+          val.id.clone(),
+        ));
+      }
       let rewriter = val
         .core
         .get_matcher_with_hint(env.clone(), CheckHint::Rewriter(&vars))
